@@ -248,6 +248,48 @@ OPS = ["call f", "call g", "call d", "call d (no aux tuple)", "call f on system 
        "pickle round trip", "call f on sibling"]
 
 
+class ArrTok:
+    """mutable array-like variable value with identity: copy.copy gives a new object with the same contents"""
+
+    def __init__(self, content):
+        self.content = content
+
+    def _pv_copy(self, ex):
+        return ArrTok(self.content)
+
+    def __eq__(self, other):
+        return isinstance(other, ArrTok) and other.content == self.content
+
+    __hash__ = None
+
+
+def copy_aliasing(run, it):
+    """no two states share a variable ARRAY: the flows update pos / mom in place (state.pos += ...), which does not pass through __setattr__, so a
+    shared array would change the other state's variables behind its cache.  For every kind of source state (writable, read-only) and every kind of
+    copy (writable, read-only), and for a copy of a copy"""
+    run.function("mici.states.ChainState.copy (variable aliasing)")
+
+    def h(ctx):
+        mod = it.module(ST)
+        ex = Exec(it, ctx, mod, mod.env, "harness")
+        cs = mod.resolve("ChainState", ctx)
+        src_ro = bool(ctx.choose(2, "source-read-only"))
+        cp_ro = bool(ctx.choose(2, "copy-read-only"))
+        base = ex.call(cs, [], {"pos": ArrTok("q"), "mom": ArrTok("p"), "dir": 1})
+        src = ex.call(ex.getattr(base, "copy"), [], {"read_only": True}) if src_ro else base
+        c = ex.call(ex.getattr(src, "copy"), [], {"read_only": cp_ro})
+        fam = [base, src, c] if src_ro else [src, c]
+        shared = [(i, j, v) for i in range(len(fam)) for j in range(i + 1, len(fam)) for v in ("pos", "mom")
+                  if fam[i].attrs["_variables"][v] is fam[j].attrs["_variables"][v]]
+        eq = all(c.attrs["_variables"][v] == src.attrs["_variables"][v] for v in ("pos", "mom"))
+        ok = not shared and eq
+        ctx.run.ob("C09/states.copy/no-two-states-share-a-variable-array", core.DISCHARGED if ok else core.FAILED, "pyvc-enum",
+                   detail="" if ok else f"source {'read-only' if src_ro else 'writable'}, copy {'read-only' if cp_ro else 'writable'}: shared variable arrays {shared}, equal contents {eq}",
+                   witness={"source_read_only": src_ro, "copy_read_only": cp_ro},
+                   text="copy(): pos and mom of the copy are new array objects with equal contents, whatever the read-only flags of the source and of the copy")
+    it.explore(h, "states.copy-aliasing", roots=[[a, b] for a in range(2) for b in range(2)])
+
+
 def cache_key_obligation(run, it):
     """the cache protocol distinguishes entries by key only: two (system object, method) pairs must never share a key, or one
     system is served the other's values (id() is injective over live objects: A11).  Imported by C02 / C04 / C18."""
@@ -547,5 +589,11 @@ def run(run_, tier):
     run_.replay_for("", lambda w: {"script": "c09_cache.py", "args": [json.dumps(w or {})]})
     protocol(run_, it, "C09")
     aux_chain_universe(run_, it, "C09")
+    copy_aliasing(run_, it)
     static_layers(run_, "C09")
+    # a memoised value must stay the from-scratch value however often the library's own methods are called at one state: the derivative methods of every
+    # system class are evaluated twice and the cached gradient re-read (C05/C07 obligations of Engine B, imported) -- an in-place update of a cached array
+    # (dh = self.grad_neg_log_dens(state); dh += ...) breaks exactly this
+    from . import symla_systems
+    symla_systems.run_cases(run_, "c05_cases", keep=lambda oid: any(k in oid for k in ("stable-under-repeated-evaluation", "grad-cache-not-corrupted")))
     run_.extraction_drops.extend(sorted(it.dropped))
